@@ -16,6 +16,9 @@ def run(ctx) -> None:
     res, stats = family_results(ctx, tags=("not",))
     ctx.extra["skeleton_stats"] = stats
     report(ctx, res, "C04", prefixes=("N1.", "N2."), cats=("$not",), compile_tags=("not",))
+    # N0: every written $not is a $not node of the typed tree with the written argument (no "not not X = X" folding:
+    # the double negation consumes ONE instruction where X matches, X itself consumes all it spans)
+    report(ctx, [r for r in res if r.rule == "T1.tree-mirrors-pattern" and "not" in r.tags], "C04.N0", prefixes=("T1.",))
     # N3: the argument is typed in the surrounding context -> judged by that role's rules
     args = [r for r in res if r.rule.split(".")[0] in ("R1", "R2", "R3", "A1", "A2", "A3") and "rewritten" not in r.atom]
     report(ctx, args, "C04.N3", prefixes=("R", "A"))
